@@ -22,6 +22,9 @@ def main():
         seed = int(os.environ.get('VERIF_SEED', '0'))
     except ValueError:
         seed = 0
+    # wall-clock budget of one DetSim case (normal cases take well under 2 s; one that is still running after this is ended and
+    # reported like a run the scheduler found stuck)
+    os.environ.setdefault('VERIF_CASE_WALL', '30' if a.tier == 'quick' else '90')
     signal.signal(signal.SIGALRM, lambda *_: (print(f'[{a.prop}] watchdog expired', flush=True), os._exit(2)))
     signal.alarm(WATCHDOG[a.tier])
     try:
